@@ -72,6 +72,7 @@ NumCmp(a, b) ==
                   ELSE IF sa > 0 THEN mag ELSE Some(CASE mag[1] = "lt" -> "gt" [] mag[1] = "gt" -> "lt" [] OTHER -> "eq")
 NumEq(a, b) == LET c == NumCmp(a, b) IN IF c = None THEN None ELSE Some(c[1] = "eq")
 
+SliceInside(v) == v.r.t = "range" /\ v.r.l.t = "int" /\ v.r.r.t = "int" /\ v.r.l.v >= 0 /\ v.r.r.v >= v.r.l.v - 1 /\ v.r.r.v < Len(v.l.v)
 (* ---------------------------------------------------------------- structural equality (C11) *)
 RECURSIVE StructEq(_, _), AllEq(_, _, _)
 \* TRUE / FALSE, or SKIP-like <<>> when a float comparison is not decidable in the model
@@ -94,6 +95,11 @@ StructEq(a, b) ==
          [] a.t = "symlist" -> IF Len(a.v) # Len(b.v) THEN Some(FALSE) ELSE AllEq(a.v, b.v, 1)
          [] a.t \in {"pair", "range"} -> LET h == StructEq(a.l, b.l) IN
                                         IF h = None THEN None ELSE IF ~h[1] THEN Some(FALSE) ELSE StructEq(a.r, b.r)
+         \* two slices are equal when they cover equal items (slices of lists) / equal characters or bytes (slices of text / bytes);
+         \* only slices that lie inside what they slice are specified
+         [] a.t = "slice" -> (IF a.l.t # b.l.t \/ a.l.t \notin {"list", "str", "bytes"} \/ ~SliceInside(a) \/ ~SliceInside(b) THEN None
+                              ELSE LET xs == SubSeq(a.l.v, a.r.l.v + 1, a.r.r.v + 1)  ys == SubSeq(b.l.v, b.r.l.v + 1, b.r.r.v + 1) IN
+                                   IF Len(xs) # Len(ys) THEN Some(FALSE) ELSE IF a.l.t = "list" THEN AllEq(xs, ys, 1) ELSE Some(xs = ys))
          [] OTHER -> None
 
 (* ---------------------------------------------------------------- model value vs observed value *)
